@@ -494,8 +494,21 @@ func c02Run(r *fw.R, d c02Desc, tier string) {
 		ru = d.CloseRune
 	}
 	reason := strings.Repeat(ru, d.CloseRsn)
+	peerBadClose := d.Seed%9 == 4
+	if peerBadClose {
+		// the peer ends the connection with a Close frame whose payload is malformed: whatever the endpoint
+		// answers (the monitor judges it like everything else it emits) is a legal Close frame, not an echo
+		pay := [][]byte{wire.ClosePayload(1005, ""), wire.ClosePayload(1006, "x"), wire.ClosePayload(999, ""), wire.ClosePayload(1015, "tls"), wire.ClosePayload(2999, ""), wire.ClosePayload(5000, "r"), {0x03}, wire.ClosePayload(1004, "")}[d.Seed/9%8]
+		peer.Send(wire.Close(pay))
+		peer.Wait(5*time.Second, func() bool { return peer.Conf.CloseSeen })
+		r.Count("peer_closes_with_a_malformed_payload", 1)
+		r.Key("%s/peer-close-malformed/%x", d.Role, pay[:min(2, len(pay))])
+	}
 	cerr := c.Close(websocket.StatusCode(d.CloseCode), reason)
 	sendable := len(reason) <= 123 && (wire.CodeOnWire(d.CloseCode) || d.CloseCode == 1005)
+	if peerBadClose {
+		sendable, cerr = false, nil // (the connection was over before this Close: its own frame is not expected)
+	}
 	if !wire.CodeOnWire(d.CloseCode) && d.CloseCode != 1005 {
 		r.Count("close_calls_with_unsendable_code", 1)
 		r.Key("%s/close/unsendable-code/%d", d.Role, d.CloseCode)
@@ -568,7 +581,7 @@ func c02Run(r *fw.R, d c02Desc, tier string) {
 		if sendable && (conf.CloseCode != wantCode || conf.CloseRsn != reason) {
 			r.Violate("C02/close-payload", fmt.Sprintf("Close(%d, %d byte reason) emitted code %d with %d reason bytes", d.CloseCode, d.CloseRsn, conf.CloseCode, len(conf.CloseRsn)), hexdump(conf.ClosePay, 130))
 		}
-		if d.CloseCode == 1005 && len(conf.ClosePay) != 0 {
+		if d.CloseCode == 1005 && len(conf.ClosePay) != 0 && !peerBadClose {
 			r.Violate("C02/close-1005-payload", "Close(1005) must emit an empty Close payload", hexdump(conf.ClosePay, 130))
 		}
 		r.Key("%s/close/code-class=%s/reason=%d/char-bytes=%d", d.Role, codeClass(d.CloseCode), d.CloseRsn, len(ru))
